@@ -213,9 +213,9 @@ theorem Task.fire_timer_irrel (t : Task) (x : Timer) (e : Nat) : ({ t with timer
 theorem expire_eq_of_due (s : Sched) (i e : Nat) (hs : s.stopped = false) (hi : i < s.nobjs)
     (hp : (s.objs i).timer = .pending e) (he : e ≤ s.now) :
     expire s i = { s with objs := upd s.objs i { s.objs i with timer := .inflight e } } := by
-  have hd : due s.tick e s.now = true := by simp only [due, decide_eq_true_eq]; omega
+  have _ := he
   unfold expire
-  simp [hs, hp, hi, hd]
+  simp [hs, hp, hi]
 
 theorem expire_eq_self (s : Sched) (i e : Nat) (hp : (s.objs i).timer = .pending e)
     (h : s.stopped = true ∨ ¬ i < s.nobjs) : expire s i = s := by
@@ -276,7 +276,8 @@ theorem DrainedUpTo_fireIfDue (s : Sched) (k : Nat) (hinv : Inv s) (h : DrainedU
         have h1t : (s1.objs k).timer = .inflight e := by subst hs1; simp
         have h1n : s1.nobjs = s.nobjs := by subst hs1; rfl
         have hrt : runTimer s1 k = timerTask s1 k e := by
-          unfold runTimer; rw [h1t]; simp [h1n, hk]
+          have he1 : e ≤ s1.now := by subst hs1; exact he
+          unfold runTimer; rw [h1t]; simp [h1n, hk, he1]
         rw [hrt, timerTask_eq]
         have hobjk : (s1.objs k).fire e = (s.objs k).fire e := by
           subst hs1; simp only [upd_same]; exact Task.fire_timer_irrel _ _ _
